@@ -303,6 +303,15 @@ class Engine:
         if isinstance(goal, Forall):
             sk = [self.fresh("sk_" + (goal.name or "k"), s) for s in goal.sorts]
             goal = goal.body(*sk)
+        if isinstance(goal, bool) and not self.pc and not self.hyps:
+            # concrete obligation on a path without symbolic condition: no solver needed
+            ob = Obligation(name, "discharged" if goal else "refuted", path=path, time=time.time() - t0, detail=detail,
+                            kind=kind, backend="concrete")
+            ob._z3model = None
+            if not goal:
+                ob.model = {}
+            self.obligations.append(ob)
+            return ob
         if isinstance(goal, bool):
             goal = z3.BoolVal(goal)
         neg = z3.Not(goal)
